@@ -15,7 +15,9 @@ Streams
 
 import logging
 
-from .common import Check, Err, clist, cpair, impl_call
+import concurrent.futures as cf
+
+from .common import Check, Err, Raw, clist, cpair, impl_call
 
 IMPORTS = ("From Coq Require Import List NArith ZArith Bool.\n"
            "From Verif Require Import Base.Val C11.Model_C11 C11.Spec_C11 C11.Class_C11.")
@@ -390,6 +392,10 @@ def main(chk: Check):
     chk.check_fingerprint(ANCHORS)
     rng = chk.rng
 
+    def budget(quick, escalated, thorough):
+        """quick tier on a changed fingerprint gets an intermediate budget (keeps the run to minutes)"""
+        return thorough if chk.thorough else (escalated if chk.fingerprint_changed else quick)
+
     GLOBS = {m: parse_match(s) for m, s in GLOB_SRC.items()}
     SIMPLE = [atom(k) for k in KEYS]
     VER = {(k, v): atom("=%s-%d" % (KEYS[k], v)) for k in range(3) for v in (1, 2)}
@@ -430,17 +436,23 @@ def main(chk: Check):
         d.optimize(cache={} if prog[2] else None)
         return d
 
-    def render_real(prog, pres):
+    def render_real(prog, pres, maker=None):
         """-> Err | {(pre_index, pkg): set}"""
         def f():
-            d = run_real(prog)
+            d = maker() if maker is not None else run_real(prog)
             return {(i, pk): set(d.render_pkg(PKGS[pk], pre)) for i, pre in enumerate(pres) for pk in PKG_IDS}
         return impl_call(f, kinds=KINDS)
+
+    def vz(nums):
+        return Raw("(vz [" + ";".join(str(int(n)) for n in nums) + "]%Z)") if nums else Raw("(vz [])")
+
+    def bits(st):
+        return sum(1 << i for i, f in enumerate(UNIVERSE) if f in st)
 
     def canon(res, pres):
         if isinstance(res, Err):
             return res
-        return [[[f in res[(i, pk)] for f in UNIVERSE] for pk in PKG_IDS] for i in range(len(pres))]
+        return vz([bits(res[(i, pk)]) for i in range(len(pres)) for pk in PKG_IDS])
 
     # ------------------------------------------------------------------ hist stream
     def A_(neg, pos):
@@ -476,20 +488,116 @@ def main(chk: Check):
         P(K_(("S", 0), (), ("a",)), "opt", K_(("S", 0), (), ("b",))),
     ]
     progs = list(witnesses)
-    n_rand = chk.n(420, 6000)
+    n_rand = budget(420, 1500, 6000)
     for i in range(n_rand):
         progs.append(gen_prog(rng, rng.randrange(1, 9), 0.15 if i % 3 else 0.25))
-    for i in range(chk.n(40, 500)):  # malformed stream: mutations of frozen / optimized dicts
+    for i in range(budget(40, 120, 500)):  # malformed stream: mutations of frozen / optimized dicts
         progs.append(gen_prog(rng, rng.randrange(2, 7), 0.1, malformed=True))
+
+
+    # ---- wiring: the same histories driven through the real profile / domain glue
+    import types
+    from pkgcore.ebuild import profiles as profiles_mod
+
+    def raw_prop(cls, name):
+        return cls.__dict__[name].function.args[0]   # the function under load_property
+
+    def fake_node(g, ents):
+        """a profile node with use.mask lines for the global entry g and one package.use.mask
+        line per entry; parsed by the real ProfileNode code"""
+        n = types.SimpleNamespace(eapi_atom=atom)
+        n._parse_use = types.MethodType(profiles_mod.ProfileNode._parse_use, n)
+        n._parse_package_use = types.MethodType(profiles_mod.ProfileNode._parse_package_use, n)
+        glines = [("-" + t, 1, "use.mask") for t in (g[1][0] if g else ())] + \
+                 [(t, 1, "use.mask") for t in (g[1][1] if g else ())]
+        n.use_mask = raw_prop(profiles_mod.ProfileNode, "use_mask")(n, glines)
+        plines = [("%s %s" % (str(real_scope(c[0])), " ".join(["-" + t for t in raw[0]] + list(raw[1]))), 1, "p")
+                  for c, raw in ents]
+        n.pkg_use_mask = raw_prop(profiles_mod.ProfileNode, "pkg_use_mask")(n, plines)
+        n.pkg_use = raw_prop(profiles_mod.ProfileNode, "pkg_use")(n, plines)
+        n.masked_use = profiles_mod.ProfileNode.__dict__["masked_use"].function(n)
+        return n
+
+    def gen_wire(rng):
+        nodes = []
+        for _ in range(rng.choice([1, 2, 2, 3])):
+            g = None
+            if rng.random() < 0.7:
+                while True:
+                    c, raw = gen_entry(rng, 0.15)
+                    if c[0][0] == "A":
+                        # _parse_use goes through split_negations of the lines: negatives first
+                        g = (c, raw)
+                        break
+            ents, seen = [], set()
+            for _ in range(rng.choice([0, 1, 2])):
+                c, raw = gen_entry(rng, 0.1)
+                if c[0][0] in "SV" and c[0][1] not in seen:
+                    seen.add(c[0][1])
+                    ents.append((c, raw))
+            nodes.append((g, ents))
+        use = []
+        for f in rng.sample(GEN_FLAGS, rng.choice([0, 1, 2, 3])):
+            use.append(("-" if rng.random() < 0.35 else "") + f)
+        if rng.random() < 0.15:
+            use.append("-" + rng.choice(WILD))
+        user = [gen_entry(rng, 0.15) for _ in range(rng.choice([0, 1, 2, 3]))]
+        return nodes, use, user
+
+    def wire_progs(nodes, use, user):
+        """-> (prog_masked, maker_masked, prog_enabled, maker_enabled)"""
+        def node_base(g):
+            b = ("new",)
+            if g is not None:
+                b = ("add", b, g[0], True, g[1])
+            return ("freeze", b)
+
+        def adds(p, ents):
+            for c, raw in ents:
+                p = ("add", p, c, False, raw)
+            return p
+        pm = ("new",)
+        pu = ("new",)
+        for g, ents in nodes:
+            nb = node_base(g)
+            pm = ("merge", pm, ("freeze", adds(("clone", nb, True), ents)) if ents else nb)
+            pu = ("merge", pu, ("freeze", adds(("new",), ents)))
+        pm = ("freeze", pm)
+        pu = ("freeze", pu)
+        neg = tuple(t[1:] for t in use if t[0] == "-")
+        pos = tuple(t for t in use if t[0] != "-")
+        uc = (("A",), tuple(set(neg)), tuple(set(pos)))
+        pe = ("freeze", adds(("merge", ("add", ("new",), uc, True, (neg, pos)), pu), user))
+
+        def stack():
+            return types.SimpleNamespace(stack=[fake_node(g, ents) for g, ents in nodes])
+
+        def mk_masked():
+            return profiles_mod.ProfileStack._collapse_use_dict(stack(), "masked_use")
+
+        def mk_enabled():
+            prof = types.SimpleNamespace(pkg_use=profiles_mod.ProfileStack._collapse_use_dict(stack(), "pkg_use"))
+            dom = types.SimpleNamespace(use=tuple(use), profile=prof,
+                                        pkg_use=tuple((real_scope(c[0]), raw) for c, raw in user))
+            return domain_mod.domain.__dict__["enabled_use"].function(dom)
+        return pm, mk_masked, pe, mk_enabled
+
+    makers = {}
+    for i in range(budget(60, 200, 800)):
+        pm, mkm, pe, mke = wire_progs(*gen_wire(rng))
+        for pr, mk in ((pm, mkm), (pe, mke)):
+            makers[len(progs)] = mk
+            progs.append(pr)
 
     hist_cases, hist_meta = [], []
     seen_classes = {}
     unclassified = []
     refusals = {"frozen": 0, "opt": 0}
     n_fail_pairs = 0
-    for prog in progs:
+    n_shrunk = 0
+    for pi, prog in enumerate(progs):
         pres = [PRES[0], rng.choice(PRES[1:])]
-        res = render_real(prog, pres)
+        res = render_real(prog, pres, makers.get(pi))
         if not isinstance(res, Err):
             extra = set().union(*res.values()) - set(UNIVERSE)
             if extra:
@@ -530,13 +638,19 @@ def main(chk: Check):
             def fails(q, pk=pk, pre=pre):
                 r = render_real(q, [pre])
                 return (not isinstance(r, Err)) and r[(0, pk)] != fold(entries(q), pk, pre)
-            small = shrink_prog(prog, fails) if len(seen_classes) < 3 or len(unclassified) < 3 else prog
+            # shrink before classifying (the first 400 failures of a run; later ones are classified as they are,
+            # and shrunk after all if no class claims them)
+            small = shrink_prog(prog, fails) if n_shrunk < 400 else prog
+            n_shrunk += 1
+            if small is prog and not any(pred(small, pk) for _cid, pred in CLASSES):
+                small = shrink_prog(prog, fails)
             cls = [cid for cid, pred in CLASSES if pred(small, pk)]
             r = render_real(small, [pre])
             ex = {"history": show_prog(small), "package": "%s-%d" % (KEYS[pk[0]], pk[1]),
                   "pre_defaults": list(pre),
                   "rendered": sorted(r[(0, pk)]) if not isinstance(r, Err) else repr(r),
-                  "left_fold": sorted(fold(entries(small), pk, pre))}
+                  "left_fold": sorted(fold(entries(small), pk, pre)),
+                  "prog": small, "pkg": list(pk)}
             if cls and chk.known_finding(cls[0], ex):
                 seen_classes[cls[0]] = seen_classes.get(cls[0], 0) + 1
             else:
@@ -546,7 +660,7 @@ def main(chk: Check):
     chk.note(f"hist: {n_fail_pairs} (history,package,pre) results differ from the left fold, all in recorded "
              f"classes {seen_classes}; refusals: {refusals}")
     for s in hist_cases[6:: max(1, len(hist_cases) // 3)][:3]:
-        chk.sample({"stream": "hist", "input": s[0], "impl": "refused" if isinstance(s[1], Err) else s[1][0][0]})
+        chk.sample({"stream": "hist", "input": s[0], "impl": "refused" if isinstance(s[1], Err) else s[1].term})
 
     # ------------------------------------------------------------------ build stream
     def gen_seq(rng):
@@ -568,30 +682,34 @@ def main(chk: Check):
 
     def enc_scope(key):
         if key == packages.AlwaysTrue:
-            return [0]
+            return [0, 0, 0]
         for m, g in GLOBS.items():
             if key is g or key == g:
-                return [1, m]
+                return [1, m, 0]
         for k, a in enumerate(SIMPLE):
             if key == a:
-                return [2, k]
+                return [2, k, 0]
         for (k, v), a in VER.items():
             if key == a:
                 return [3, k, v]
-        return [9]
+        return [9, 0, 0]
+
+    def enc_chunks(chunks):
+        out = []
+        for c in chunks:
+            out += enc_scope(c.key) + [len(c.neg)] + [FLAG_ID[t] for t in c.neg] + [len(c.pos)] + [FLAG_ID[t] for t in c.pos]
+        return vz(out)
 
     build_cases = []
-    for _ in range(chk.n(300, 4000)):
+    for _ in range(budget(300, 1000, 4000)):
         seq, restrict = gen_seq(rng)
-        res = impl_call(lambda: [[enc_scope(c.key), [FLAG_ID[t] for t in c.neg], [FLAG_ID[t] for t in c.pos]]
-                                 for c in _build_cp_atom_payload(
-                                     [chunked_data(real_scope(sc), n, p) for sc, n, p in seq],
-                                     real_scope(restrict))])
+        res = impl_call(lambda: enc_chunks(_build_cp_atom_payload(
+            [chunked_data(real_scope(sc), n, p) for sc, n, p in seq], real_scope(restrict))))
         build_cases.append((cpair(clist([c_chunk(c) for c in seq], "chunk"), c_scope(restrict)), res))
         if len(seq) >= 3:
             chk.nontrivial(build_cases[-1][0])
     chk.count("build", len(build_cases))
-    chk.sample({"stream": "build", "input": build_cases[0][0], "impl": build_cases[0][1]})
+    chk.sample({"stream": "build", "input": build_cases[3][0], "impl": getattr(build_cases[3][1], "term", None)})
 
     # ------------------------------------------------------------------ split stream
     def gen_line(rng):
@@ -622,20 +740,20 @@ def main(chk: Check):
 
     def enc_out(t):
         if t == "-*":
-            return [2]
+            return 2000
         if t in ("-foo_*", "-bar_*"):
-            return [3, 1 if t == "-foo_*" else 2]
+            return 3001 if t == "-foo_*" else 3002
         n = t[1:] if t.startswith("-") else t
         if n in ("a", "b", "c"):
             i = FLAG_ID[n]
         elif n[:4] in ("foo_", "bar_") and n[4:] in ("a", "b", "c"):
             i = (100 if n[:4] == "foo_" else 200) + FLAG_ID[n[4:]] - 10
         else:
-            return [9]
-        return [1 if t.startswith("-") else 0, i]
+            return 9999
+        return (1000 + i) if t.startswith("-") else i
 
     split_cases = []
-    for _ in range(chk.n(300, 4000)):
+    for _ in range(budget(300, 1000, 4000)):
         toks, term = gen_line(rng)
         line = rng.choice(["cata/p1", "*/*", "=catb/p1-2"]) + " " + " ".join(toks)
 
@@ -643,12 +761,12 @@ def main(chk: Check):
             out = list(domain_mod.package_use_splitter([(line, 1, "package.use")]))
             if not out:
                 return None
-            return [enc_out(t) for t in out[0][1]]
+            return vz([enc_out(t) for t in out[0][1]])
         split_cases.append((term, impl_call(f)))
         if len(toks) >= 3 and ("-*" in toks or any(t.endswith(":") for t in toks)):
             chk.nontrivial(term)
     chk.count("split", len(split_cases))
-    chk.sample({"stream": "split", "input": split_cases[0][0], "impl": split_cases[0][1]})
+    chk.sample({"stream": "split", "input": split_cases[0][0], "impl": getattr(split_cases[0][1], "term", None)})
 
     # ------------------------------------------------------------------ evaluate model and spec inside Coq
     streams = [
@@ -656,17 +774,18 @@ def main(chk: Check):
          ["mismatches run_hist cases", "where_ (fun i r => negb (spec_hist_ok i r)) cases",
           "where_ (fun i _ => existsb (class_a_tight (fst i)) pkgs) cases",
           "where_ (fun i _ => existsb (class_b (fst i)) pkgs) cases",
-          "where_ (fun i _ => existsb (class_c (fst i)) pkgs) cases"], 150),
+          "where_ (fun i _ => existsb (class_c (fst i)) pkgs) cases"], 240),
         ("build", "list chunk * scope", build_cases, ["mismatches run_build cases"], 400),
         ("split", "list tok", split_cases,
          ["mismatches run_split cases", "where_ (fun i r => negb (spec_split_ok i r)) cases"], 400),
     ]
     a_bad = []
     split_bad = []
-    for name, ty, cases, evals, shard in streams:
-        if not ok:
-            break
-        r = chk.coq_eval(name, IMPORTS, ty, cases, evals, shard=shard, preamble=PRE)
+    with cf.ThreadPoolExecutor(max_workers=3) as ex:
+        futs = [(st, ex.submit(chk.coq_eval, st[0], IMPORTS, st[1], st[2], st[3], st[4], PRE) if ok else None)
+                for st in streams]
+        results = [(st, f.result() if f is not None else None) for st, f in futs]
+    for (name, ty, cases, evals, shard), r in results:
         if r is None:
             continue
         for i in r[0][:3]:
@@ -681,8 +800,8 @@ def main(chk: Check):
                 res = hist_cases[idx][1]
                 if isinstance(res, Err):
                     continue
-                want = [[[f in fold(entries(prog), pk, pre) for f in UNIVERSE] for pk in PKG_IDS] for pre in pres]
-                if want != res:
+                want = vz([bits(fold(entries(prog), pk, pre)) for pre in pres for pk in PKG_IDS])
+                if want.term != res.term:
                     py_fail.add(idx)
             for j, (cid, pred) in enumerate(CLASSES):
                 py_cls = {idx for idx, (prog, _p) in enumerate(hist_meta) if any(pred(prog, pk) for pk in PKG_IDS)}
@@ -700,10 +819,60 @@ def main(chk: Check):
         chk.violation("property", u)
     for s in split_bad[:3]:
         chk.violation("property", {"what": "the package.use splitter's output does not mean what the line says "
-                                           "(Spec_C11.spec_split_ok)", "input": s[0], "implementation": s[1]})
+                                           "(Spec_C11.spec_split_ok)", "input": s[0], "implementation": getattr(s[1], "term", s[1])})
     for name, case in a_bad:
         chk.violation("correspondence",
                       {"what": f"implementation and Model_C11 disagree on stream '{name}' "
                                "(the theorems of Prop_C11 no longer speak about this code)",
-                       "input": case[0], "implementation": case[1]},
+                       "input": case[0], "implementation": getattr(case[1], "term", case[1])},
                       no_input=not (unclassified or split_bad))
+
+
+def _tuplify(x):
+    return tuple(_tuplify(i) for i in x) if isinstance(x, list) else x
+
+
+def replay(chk, data):
+    """re-run one recorded history: implementation (direct API), left fold, classes"""
+    inp = data.get("detail", {}).get("input", {})
+    if not isinstance(inp, dict) or "prog" not in inp:
+        print("nothing to replay: the record holds no operation tree")
+        return
+    from pkgcore.ebuild.atom import atom
+    from pkgcore.ebuild.misc import ChunkedDataDict, chunked_data
+    from pkgcore.restrictions import packages
+    from pkgcore.test.misc import FakePkg
+    from pkgcore.util.parserestrict import parse_match
+    prog, pk, pre = _tuplify(inp["prog"]), tuple(inp["pkg"]), tuple(inp.get("pre_defaults", ()))
+
+    def scope(s):
+        return (packages.AlwaysTrue if s[0] == "A" else parse_match(GLOB_SRC[s[1]]) if s[0] == "G"
+                else atom(KEYS[s[1]]) if s[0] == "S" else atom("=%s-%d" % (KEYS[s[1]], s[2])))
+
+    def run(p):
+        t = p[0]
+        if t == "new":
+            return ChunkedDataDict()
+        if t == "merge":
+            d = run(p[1])
+            d.merge(run(p[2]))
+            return d
+        d = run(p[1])
+        if t == "add":
+            if p[2][0][0] == "A" and p[3]:
+                d.add_bare_global(p[4][0], p[4][1])
+            else:
+                d.update_from_stream([chunked_data(scope(p[2][0]), p[4][0], p[4][1])])
+        elif t == "freeze":
+            d.freeze()
+        elif t == "clone":
+            return d.clone(unfreeze=p[2])
+        elif t == "opt":
+            d.optimize(cache={} if p[2] else None)
+        return d
+    got = impl_call(lambda: sorted(run(prog).render_pkg(FakePkg("%s-%d" % (KEYS[pk[0]], pk[1])), pre)), kinds=KINDS)
+    print("history        :", show_prog(prog))
+    print("package        : %s-%d   pre_defaults: %s" % (KEYS[pk[0]], pk[1], list(pre)))
+    print("implementation :", got)
+    print("left fold      :", sorted(fold(entries(prog), pk, pre)))
+    print("classes        :", [cid for cid, pred in CLASSES if pred(prog, pk)] + (["optimize-then-mutate"] if class_d(prog) else []))
